@@ -407,4 +407,206 @@ theorem quicRun_mix (o : Opts) (hl : H.Lawful) (L : SealLaws Pc) (dcid0 cr csel 
 
 end Runs2
 
+section Final2
+open TLX.Export TLX.Quic.Session TLX.Cipher TLX.Props.C02Session TLX.Spec.KeySchedules
+variable (maskFn : Quic.Dissect.MaskFn) (H : Crypto.Prims) (Pc : Cipher.Prims)
+
+/-- the main loop's calls for the connection's own datagrams -/
+def ownView (fl : Flow) (keys : List Keylog.Key) (itemsA : List (List Keylog.Key × MainLoop.Pkt × DgM))
+    (itemsB : List (MainLoop.Pkt × Dg1)) : List (QIn Keylog.Key) :=
+  (itemsA.map fun x => (⟨x.1, hdrM x.2.2, x.2.1⟩ : QIn Keylog.Key)) ++
+    itemsB.map fun x => (⟨keys, .short, x.1⟩ : QIn Keylog.Key)
+
+/-- the core of the file-level theorem: in the QUIC view of the described capture the connection's datagrams are interleaved
+    with those of other connections; if those are separated from it (`QuicSeparated`, both ways: Props/C04), the connection
+    has ONE session in `quic_sessions`, and what it exports is `expectedOut` of its 1-RTT packets -/
+theorem quic_capture_session2 (hl : H.Lawful) (h32 : H.sha256.outLen = 32) (L : SealLaws Pc)
+    (args : Args) (keyFile : Option Keylog.Str) (evsA evsB : List QEv2)
+    (htime : ∀ e ∈ (evsA ++ evsB).map QEv2.cap, Ingest.isMinusOne e.t = false)
+    (hnoc : args.checksumTest = false) (hmeta : args.metadata = false)
+    (pm : List (Int × Int)) (ports : List Int)
+    (hpm : Options.getPortMap Options.Src.bare args.mArg = .ok pm)
+    (hports : Options.serverPorts Options.Src.builtin Options.Src.pDefault args.pArg = .ok ports)
+    (fl : Flow) (hne : clientEp fl ≠ serverEp fl) (hcp : ports.contains (fl.clientPort : Int) = false)
+    (hs : ConfHs) (hsok : hs.Ok) (ch sh ca sa : Bytes) (early : Option Bytes) (sel : SuiteSel)
+    (hsel : selectSuite hs.sh.cipherSuite = some sel)
+    (ho : (hashOf H sel.hash).outLen < 65536)
+    (hsa : sa.length = (hashOf H sel.hash).outLen) (hca : ca.length = (hashOf H sel.hash).outLen)
+    (hkl : KeylogHas ((fileKeysOf keyFile).getD []) hs.ch.random ch sh ca sa early)
+    (kl0 : List Keylog.Key) (p0 : MainLoop.Pkt) (d0 : DgM) (itemsA : List (List Keylog.Key × MainLoop.Pkt × DgM))
+    (hfirst : mixItems fl ((fileKeysOf keyFile).getD []) 0 evsA = (kl0, p0, d0) :: itemsA)
+    (hd0 : d0.srv = false) (hd0l : d0.longs ≠ [])
+    (hdesc : QDescribed2 fl (DgM.wire H Pc L d0.dcid sel sh ch sa ca)
+      (wireOf H Pc L sel .v1 (rfcGen (hashOf H sel.hash) sel.keyLen sa ca 0)) (optsOf args ports pm) (evsA ++ evsB))
+    (hphA : ∀ ev ∈ evsA, noOne2 ev = true) (hphB : ∀ ev ∈ evsB, noMix2 ev = true)
+    (hok : MixDgs maskFn H Pc L d0.dcid sel sh ch sa ca trk0 (d0 :: itemsA.map (·.2.2)))
+    (hins : allInsM (d0 :: itemsA.map (·.2.2)) = hs.ins)
+    (hkeyed : (trk0.runM (d0 :: itemsA.map (·.2.2))).keyed = true)
+    (hrouteA : RoutesM (DgM.wire H Pc L d0.dcid sel sh ch sa ca) (trk0.dgm d0) (itemsA.map (·.2.2)))
+    (hsend : Send1 maskFn H Pc L sel .v1 (rfcGen (hashOf H sel.hash) sel.keyLen sa ca 0)
+      (quicHp (hashOf H sel.hash) ca sel.keyLen) (quicHp (hashOf H sel.hash) sa sel.keyLen)
+      (chachaOf (trk0.runM (d0 :: itemsA.map (·.2.2))).core) 0 0
+      (trk0.runM (d0 :: itemsA.map (·.2.2))).tc.app (trk0.runM (d0 :: itemsA.map (·.2.2))).ts.app
+      (trk0.runM (d0 :: itemsA.map (·.2.2))).cc (trk0.runM (d0 :: itemsA.map (·.2.2))).sc
+      ((oneItems2 fl evsA.length evsB).map (·.2)))
+    (hrouteB : Routes1 (wireOf H Pc L sel .v1 (rfcGen (hashOf H sel.hash) sel.keyLen sa ca 0))
+      (trk0.runM (d0 :: itemsA.map (·.2.2))).cc (trk0.runM (d0 :: itemsA.map (·.2.2))).sc
+      ((oneItems2 fl evsA.length evsB).map (·.2)))
+    (htimes : ((shortsOf (d0 :: itemsA.map (·.2.2)) ++ (oneItems2 fl evsA.length evsB).map (·.2)).map
+      fun d => (d.x.ts, d.x.srv)).Pairwise (· ≠ ·))
+    (hsep1 : QuicSeparated (quicMachine maskFn H Pc (capInfo ((evsA ++ evsB).map QEv2.cap))) (optsOf args ports pm)
+      (ownView fl ((fileKeysOf keyFile).getD []) ((kl0, p0, d0) :: itemsA) (oneItems2 fl evsA.length evsB))
+      (othView (optsOf args ports pm) ((fileKeysOf keyFile).getD []) 0 (evsA ++ evsB)))
+    (hsep2 : QuicSeparated (quicMachine maskFn H Pc (capInfo ((evsA ++ evsB).map QEv2.cap))) (optsOf args ports pm)
+      (othView (optsOf args ports pm) ((fileKeysOf keyFile).getD []) 0 (evsA ++ evsB))
+      (ownView fl ((fileKeysOf keyFile).getD []) ((kl0, p0, d0) :: itemsA) (oneItems2 fl evsA.length evsB))) :
+    CapOk ((evsA ++ evsB).map QEv2.cap) ∧
+    ∃ (S1 S2 : List (QuicSess QConn)) (sess : QuicSess QConn),
+      quicRun (quicMachine maskFn H Pc (capInfo ((evsA ++ evsB).map QEv2.cap))) (optsOf args ports pm) []
+        (quicView (optsOf args ports pm) ((fileKeysOf keyFile).getD []) (itemsFrom 0 ((evsA ++ evsB).map QEv2.cap))) =
+          S1 ++ [sess] ++ S2 ∧
+      (quicMachine maskFn H Pc (capInfo ((evsA ++ evsB).map QEv2.cap))).out args.metadata sess.st =
+        expectedOut ((quicMachine maskFn H Pc (capInfo ((evsA ++ evsB).map QEv2.cap))).new (optsOf args ports pm) p0)
+          (shortsOf (d0 :: itemsA.map (·.2.2)) ++ (oneItems2 fl evsA.length evsB).map (·.2)) := by
+  generalize hcapdef : (evsA ++ evsB).map QEv2.cap = cap at *
+  generalize hkeys : (fileKeysOf keyFile).getD [] = keys at *
+  generalize hodef : optsOf args ports pm = o at *
+  have hoc : o.checksumTest = false := by rw [← hodef]; exact hnoc
+  have hop : o.ports = ports := by rw [← hodef]; rfl
+  let QM := quicMachine maskFn H Pc (capInfo cap)
+  let wM := DgM.wire H Pc L d0.dcid sel sh ch sa ca
+  let w1 := wireOf H Pc L sel .v1 (rfcGen (hashOf H sel.hash) sel.keyLen sa ca 0)
+  have hcapOk : CapOk cap := by
+    rw [← hcapdef]; exact capOk_of_qdescribed2 fl wM w1 o _ hdesc (by rw [hcapdef]; exact htime)
+  have hdA : QDescribed2 fl wM w1 o evsA := fun ev he => hdesc ev (List.mem_append_left _ he)
+  have hdB : QDescribed2 fl wM w1 o evsB := fun ev he => hdesc ev (List.mem_append_right _ he)
+  have hfullA : ∀ i ev, evsA[i]? = some ev → cap[0 + i]? = some ev.cap := by
+    intro i ev h
+    rw [← hcapdef, Nat.zero_add, List.getElem?_map, List.getElem?_append_left (List.getElem?_eq_some_iff.mp h).1, h]; rfl
+  have hfullB : ∀ i ev, evsB[i]? = some ev → cap[evsA.length + i]? = some ev.cap := by
+    intro i ev h
+    rw [← hcapdef, List.getElem?_map, List.getElem?_append_right (by omega), Nat.add_sub_cancel_left, h]; rfl
+  -- the first datagram creates the session
+  have hp0mem : (kl0, p0, d0) ∈ mixItems fl keys 0 evsA := by rw [hfirst]; simp
+  let c0 := QM.new o p0
+  have hc0cl : c0.client = clientEp fl ∧ (rolesOf o.ports p0) = (serverEp fl, clientEp fl) := by
+    obtain ⟨_, _, hp⟩ := carriesM_of_described fl hne wM w1 o keys evsA hdA cap 0 hfullA
+      { c0 with client := clientEp fl } rfl _ hp0mem
+    simp only at hp
+    have hr : rolesOf o.ports p0 = (serverEp fl, clientEp fl) := by
+      have hc' : ¬ (fl.clientPort : Int) ∈ ports := by simpa using hcp
+      rw [hp, hd0, hop]
+      simp [rolesOf, dgPkt, clientEp, hc']
+    exact ⟨congrArg Prod.snd hr, hr⟩
+  obtain ⟨hc0c, hroles⟩ := hc0cl
+  -- the QUIC view: own datagrams and the others', interleaved
+  have hview : Merge (ownView fl keys ((kl0, p0, d0) :: itemsA) (oneItems2 fl evsA.length evsB))
+      (othView o keys 0 (evsA ++ evsB)) (quicView o keys (itemsFrom 0 cap)) := by
+    have hoth : othView o keys 0 (evsA ++ evsB) = othView o keys 0 evsA ++ othView o keys evsA.length evsB := by
+      have : ∀ (a : List QEv2) (n : Nat), othView o keys n (a ++ evsB) = othView o keys n a ++ othView o keys (n + a.length) evsB := by
+        intro a
+        induction a with
+        | nil => intro n; simp [othView]
+        | cons e rest ih =>
+          intro n
+          have hn : n + 1 + rest.length = n + (rest.length + 1) := by omega
+          cases e <;> simp [othView, ih (n + 1), hn, List.append_assoc]
+      simpa using this evsA 0
+    rw [← hcapdef, List.map_append, itemsFrom_append, quicView_append, hoth, List.length_map, Nat.zero_add]
+    unfold ownView
+    rw [← hfirst]
+    exact merge_append (quicView_mixPhase fl wM w1 o hoc (mixHeader_wire H Pc L _ sel sh ch sa ca) keys evsA hdA hphA 0)
+      (quicView_onePhase2 fl wM w1 o hoc (oneHeader_wireOf H Pc L sel .v1 _) keys evsB hdB hphB evsA.length)
+  have hcarAll := carriesM_of_described fl hne wM w1 o keys evsA hdA cap 0 hfullA c0 hc0c
+  rw [hfirst] at hcarAll
+  have hkl0 : kl0 = keys := (hcarAll _ (List.mem_cons_self ..)).1
+  have hklA : ∀ x ∈ (kl0, p0, d0) :: itemsA, KeylogHas x.1 hs.ch.random ch sh ca sa early := by
+    intro x hx; rw [(hcarAll x hx).1]; exact hkl
+  -- the session object after the first datagram
+  obtain ⟨hm0, hms⟩ := hok
+  have htr : PTrace hs.ch.random hs.sh.cipherSuite {} (allInsM (d0 :: itemsA.map (·.2.2))) := by
+    rw [hins]; exact ptrace_of_conformant hs hsok
+  have hv0 : sver d0.ver = .v1 := by unfold DgM.ver; rw [if_neg hd0l]; rfl
+  have hfresh := new_fresh maskFn H Pc (capInfo cap) o p0
+  have hno : noOut c0.st = c0.st := by rw [hfresh.1]; rfl
+  have hpre : HsSt H d0.dcid sel ch sh ca sa trk0.keyed (feedPre H (params H Pc kl0) (noOut c0.st) d0.dcid (sver d0.ver))
+      trk0.tc trk0.ts trk0.cc trk0.sc trk0.core := by
+    rw [hno, hfresh.1, hv0]; exact feedPre_fresh H Pc kl0 h32 d0.dcid sel ch sh ca sa
+  have htr' : PTrace hs.ch.random hs.sh.cipherSuite trk0.core (insOf d0.longs ++ allInsM (itemsA.map (·.2.2))) := by
+    simpa [allInsM, List.flatMap_cons, trk0] using htr
+  obtain ⟨b1, b2, b3, _, b5, b6, b7, b8, b9, b10⟩ := mix_feed_step maskFn H Pc (capInfo cap) hl kl0 L d0.dcid hs.ch.random
+    hs.sh.cipherSuite ch sh ca sa early sel hsel (hklA _ (List.mem_cons_self ..)) ho hsa hca trk0 d0 hm0 _ c0 hfresh.2 hpre
+    htr' p0 (hcarAll _ (List.mem_cons_self ..)).2.1
+  let s0 : QuicSess QConn := ⟨serverEp fl, clientEp fl, QM.feed c0 kl0 p0 d0.dcid d0.ver⟩
+  have hcarA : ∀ x ∈ itemsA, CarriesM (capInfo cap) s0.st wM x.2.1 x.2.2 := by
+    intro x hx
+    obtain ⟨u1, u2, u3⟩ := (hcarAll x (List.mem_cons_of_mem _ hx)).2.1
+    exact ⟨u1, u2, by rw [show s0.st.client = c0.client from b7]; exact u3⟩
+  have hmA : ∀ x ∈ itemsA, s0.matches x.2.1 = true := by
+    intro x hx
+    rw [(hcarAll x (List.mem_cons_of_mem _ hx)).2.2]; exact dgPkt_matches fl s0 rfl rfl _ _ _
+  -- the mixed part
+  obtain ⟨i1, i2, _, i4, i5, i6, i7, i8, i9⟩ := mix_feed_rest maskFn H Pc (capInfo cap) hl L d0.dcid hs.ch.random
+    hs.sh.cipherSuite ch sh ca sa early sel hsel ho hsa hca itemsA (fun x hx => hklA x (List.mem_cons_of_mem _ hx))
+    (trk0.dgm d0) s0.st b1 b2 hms b3 hcarA
+  have hrunA : quicRun QM o [] (((kl0, p0, d0) :: itemsA).map fun x => (⟨x.1, hdrM x.2.2, x.2.1⟩ : QIn Keylog.Key)) =
+      [{ s0 with st := mixFeedAll QM s0.st itemsA }] := by
+    simp only [List.map_cons, quicRun, List.foldl_cons]
+    have hh0 : hdrM d0 = .long d0.dcid .v1 := by unfold hdrM; rw [if_neg hd0l]
+    have hv0' : d0.ver = .v1 := by unfold DgM.ver; rw [if_neg hd0l]
+    rw [hh0, quicHandle_new]
+    have hnew : quicNew QM o kl0 (.long d0.dcid .v1) p0 = s0 := by
+      simp only [quicNew, hroles, Hdr.dcid, Hdr.ver, s0, hv0']; rfl
+    rw [hnew]
+    have := quicRun_mix maskFn H Pc (capInfo cap) o hl L d0.dcid hs.ch.random hs.sh.cipherSuite ch sh ca sa early sel hsel ho
+      hsa hca itemsA (fun x hx => hklA x (List.mem_cons_of_mem _ hx)) (trk0.dgm d0) s0
+      (by show clientEp fl = s0.st.client; rw [show s0.st.client = c0.client from b7]; exact hc0c.symm) b1 b2 hmA hms b3
+      hcarA hrouteA
+    simp only [quicRun] at this
+    exact this
+  generalize hc1 : mixFeedAll QM s0.st itemsA = c1 at *
+  have ht1 : trk0.runM (d0 :: itemsA.map (·.2.2)) = (trk0.dgm d0).runM (itemsA.map (·.2.2)) := rfl
+  rw [ht1] at hkeyed hsend hrouteB
+  rw [hkeyed] at i2
+  have hc1c : c1.client = clientEp fl := by rw [i6]; show s0.st.client = _; rw [show s0.st.client = c0.client from b7]; exact hc0c
+  -- the 1-RTT-only part
+  have hest := est_of_noOut H Pc keys _ _ _ _ _ _ _ _ _ _ _ _ _ (est_of_hsSt H Pc keys _ sel ch sh ca sa _ _ _ _ _ _ i2)
+  have hcarO := carries_of_described2 fl hne wM w1 o evsB hdB cap evsA.length hfullB c1 hc1c
+  have hk := keysWf_rfc H hl Pc keys hs.sh.cipherSuite sel hsel .v1 ho sa ca hsa hca
+  have hrunO := quicRun_one maskFn H Pc (capInfo cap) o keys L sel .v1 _ _ _ _ hk (oneItems2 fl evsA.length evsB)
+    { s0 with st := c1 } 0 0 _ _ _ _ hc1c.symm i1 hest
+    (by
+      intro x hx
+      obtain ⟨_, hp⟩ := hcarO x hx
+      rw [hp]; exact dgPkt_matches fl _ rfl rfl _ _ _)
+    (fun x hx => (hcarO x hx).1) hsend hrouteB
+  have hrunOwn : quicRun QM o [] (ownView fl keys ((kl0, p0, d0) :: itemsA) (oneItems2 fl evsA.length evsB)) =
+      [{ s0 with st := C02Capstone.feedAll QM c1 ((oneItems2 fl evsA.length evsB).map fun x => (keys, x.1, x.2)) }] := by
+    unfold ownView
+    rw [quicRun_append, hrunA]
+    exact hrunO
+  -- the session's export: the interleaved-history theorem
+  have hmap : ((oneItems2 fl evsA.length evsB).map fun x => (keys, x.1, x.2)).map (·.2.2) =
+      (oneItems2 fl evsA.length evsB).map (·.2) := by simp [List.map_map]
+  obtain ⟨_, r2⟩ := quic_connection_exact_interleaved_conformant maskFn H Pc (capInfo cap) hl h32 L hs hsok ch sh ca sa early
+    sel hsel ho hsa hca kl0 p0 d0 itemsA hklA c0 hfresh hd0l ⟨hm0, hms⟩ hins
+    (fun x hx => (hcarAll x hx).2.1) (by rw [ht1]; exact hkeyed)
+    ((oneItems2 fl evsA.length evsB).map fun x => (keys, x.1, x.2))
+    (by
+      intro x hx
+      obtain ⟨y, hy, rfl⟩ := List.mem_map.mp hx
+      obtain ⟨u1, u2, u3⟩ := (hcarO y hy).1
+      exact ⟨u1, u2, by rw [hc0c, ← hc1c]; exact u3⟩)
+    (by rw [hmap, ht1]; exact hsend) (by rw [hmap]; exact htimes)
+  have hc1' : mixFeedAll QM c0 ((kl0, p0, d0) :: itemsA) = c1 := by rw [← hc1]; rfl
+  rw [hc1', hmap] at r2
+  -- the other connections stay apart (Props/C04)
+  have hmerge := C04.quic_route_exact QM o hview hsep1 hsep2
+  rw [hrunOwn] at hmerge
+  obtain ⟨S1, S2, hS⟩ := merge_singleton hmerge
+  subst hodef
+  subst hkeys
+  exact ⟨hcapOk, S1, S2, _, hS, by rw [hmeta]; exact r2⟩
+
+end Final2
 end TLX.Props.C02File2
